@@ -64,7 +64,7 @@ CHECKS = [
         "under ThreadSanitizer with fiber switches that carry no synchronisation, so accesses ordered only by the scheduler are reported as data races. Sampling of "
         "sequentially consistent schedules, not proof.",
         "Trusted: the shims and scheduler (engines/sim_par.cc, vsim/vpar.cc), TSan's fiber API. Sequential consistency only (no weak-memory reorderings). "
-        "One known finding is recorded instead of repaired: the cursor wraps when end_value is within num_threads*block_size of IntT's maximum.",
+        "The cursor-wrap defect found by this check (end_value within num_threads*block_size of IntT's maximum) was first a recorded known finding and is repaired since /repo commit 1231204.",
         "DESIGN.md 4.4", "deterministic simulation (seeded cooperative scheduler over real template code; second build under ThreadSanitizer fibers for data races)"),
     chk("C20", "sim-rand",
         "SCOPED to the entropy clause of C20 (random_int in [lo,hi]; random_data fills exactly n bytes). The real Random.cc runs against a simulated "
